@@ -74,6 +74,8 @@ func runC08(p *core.Program, r *core.Report) {
 	r.Rule("C08.defaulting", "TxRecord.Read mutates decoded fields only by the sanctioned ErrorLevel defaulting", 1)
 	r.Rule("C08.in-place", "decoders store what they read into the container itself (no decode into a range copy, no append after a full-length make)", 10)
 	decodeInPlace(p, x, r, "C08.in-place", []string{"lang/step", "lang/service"})
+	r.Rule("C08.verbatim-input", "a decoder entry point of lang/step and lang/service builds its input stream over the bytes it was handed (or an explicit re-slice), never over what a function made of them (shared with C03.verbatim-input)", 1)
+	c03VerbatimInput(p, r, "C08.verbatim-input", []string{"lang/step", "lang/service"})
 	r.Rule("C08.stateless", "what a step or record decodes to depends on its own bytes only: no function of lang/step and lang/service writes package-level state (a cache filled while decoding makes a later decode depend on an earlier one)", 2)
 	statelessRule(p, r, "C08.stateless", []string{"lang/step", "lang/service"})
 	r.Rule("C08.order", "a step list is encoded in the order given: no function taking or returning a list of steps hands it to a sorting, shuffling or reversing routine", 2)
